@@ -776,8 +776,14 @@ def sym_format(eng, x, spec):
     raise Unsupported(f"format spec {spec!r} on symbolic {type(x).__name__}")
 
 
+def m_warn(eng, *a, **k):
+    return None
+
+
 def install(eng):
     import builtins
+    import warnings
+    eng.models[warnings.warn] = m_warn
     M = eng.models
     M.update({
         len: m_len, isinstance: m_isinstance, type: m_type, int: m_int, float: m_float, bool: m_bool, str: m_str,
